@@ -392,20 +392,31 @@ def ref_of(reg, uid_ref, o):
 
 
 def add_steps(reg, uid_ref, entries, res):
+    """the strategy steps that ran, from the factory log; the member / child of add_as_child is read
+    off the final graph after undoing the later steps (a later step may re-hang the new node)"""
+    done = [e for e in entries if e[3] is not None and
+            ((e[0] == 'node' and e[2] is False) or e[0] == 'parent')]
+    P = {ref_of(reg, uid_ref, m): [ref_of(reg, uid_ref, p) for p in m.nodes_from] for m in res.nodes}
     steps = []
-    for kind, node, prim, r in entries:
-        if r is None:
-            continue
-        if kind == 'node' and prim is False:       # add_as_child asked get_node(is_primary=False)
-            ps = [ref_of(reg, uid_ref, p) for p in r.nodes_from]
-            kids = [ref_of(reg, uid_ref, m) for m in res.nodes if any(p is r for p in m.nodes_from)]
+    for kind, node, prim, r in reversed(done):
+        n = ref_of(reg, uid_ref, r)
+        if kind == 'node':       # add_as_child asked get_node(is_primary=False)
+            ps = P.get(n, [])
             v = ps[0] if ps else 0
+            kids = [m for m, mp in P.items() if n in mp]
             steps.append('(AsChild %d %s %s)' % (v, '(Some %d)' % kids[0] if kids else '(@None nat)', c_nn(reg, r)))
-        elif kind == 'parent' and prim:
-            steps.append('(SepParent %d %s)' % (ref_of(reg, uid_ref, node), c_nn(reg, r)))
-        elif kind == 'parent':
-            steps.append('(Intermediate %d %s)' % (ref_of(reg, uid_ref, node), c_nn(reg, r)))
-    return '[' + '; '.join(steps) + ']'
+            for m in kids:
+                P[m] = [v if x == n else x for x in P[m]]
+        elif prim:
+            v = ref_of(reg, uid_ref, node)
+            steps.append('(SepParent %d %s)' % (v, c_nn(reg, r)))
+            P[v] = [x for x in P.get(v, []) if x != n]
+        else:
+            v = ref_of(reg, uid_ref, node)
+            steps.append('(Intermediate %d %s)' % (v, c_nn(reg, r)))
+            P[v] = list(P.get(n, []))
+        P.pop(n, None)
+    return '[' + '; '.join(reversed(steps)) + ']'
 
 
 def tree_choice(reg, entries, gb, ga, parents_b):
@@ -657,6 +668,8 @@ def evaluate(ctx, group, kind, specs):
             case['coq_term'] = term_of[id(spec)]
         if not dom:
             ctx.error(group, 'generated input outside the domain (not a non-empty well-formed DAG): %r' % (spec,))
+        if kind == 'mut' and spec['fn'] == 'none' and not info['raised'] and not info['same_object']:
+            ctx.violate(group, case, 'no_mutation returned another object than its argument')
         if not ho:
             what = 'raised %s' % info['raised'] if info['raised'] else 'result violates the property clauses'
             ctx.violate(group, case, '%s: %s' % (spec['fn'], what), finding_key=classify_violation(kind, spec, info))
